@@ -1576,8 +1576,8 @@ func main() {
 		if a.write {
 			k = "Write"
 		}
-		s := fmt.Sprintf("  mkA %s %s %d %s %s %s %s %s %s %s", q(a.fn), q(a.file), a.line, q(a.owner), q(a.field), k,
-			lockList(a.locks), boolStr(a.fresh), qlist(a.recv), qlist(a.signal))
+		s := fmt.Sprintf("  mkA %s %s %d %s %s %s %s %s %s %s %s", q(a.fn), q(a.file), a.line, q(a.owner), q(a.field), k,
+			lockList(a.locks), boolStr(a.fresh), boolStr(a.local), qlist(a.recv), qlist(a.signal))
 		if !seen[s] {
 			seen[s] = true
 			lines = append(lines, s)
@@ -1588,7 +1588,8 @@ func main() {
 	fmt.Fprintf(&hdr, "   Regenerated on every run of ./check C14 (lib/props/c14.py pre_build); a committed copy is overwritten.\n")
 	fmt.Fprintf(&hdr, "   One record per read / write of a field of a tracked struct type (or of a local variable captured by a\n")
 	fmt.Fprintf(&hdr, "   goroutine): function, file, line, owner type, field, kind, mutexes of the same object held there,\n")
-	fmt.Fprintf(&hdr, "   fresh (object allocated in this function / before the goroutine starts), channels received from on\n")
+	fmt.Fprintf(&hdr, "   fresh (object allocated in this function / before the goroutine starts), local (captured local\n")
+	fmt.Fprintf(&hdr, "   variable: owner is the declaring function), channels received from on\n")
 	fmt.Fprintf(&hdr, "   every path before it, channels closed or sent to unconditionally after it. *)\n")
 	fmt.Fprintf(&hdr, "From Coq Require Import List String NArith.\nFrom DnsV Require Import Model.AccessTypes.\nImport ListNotations.\nOpen Scope string_scope.\nOpen Scope N_scope.\n\n")
 	fmt.Fprintf(&b, "Definition accesses : list access := [\n%s\n].\n\n", strings.Join(lines, ";\n"))
